@@ -67,13 +67,19 @@ StackBuiltins == {"PEEK", "PEEK_ALL", "POP", "POP_ALL", "DROP"}
 Keywords == {"ANY", "SOI", "EOI"} \cup StackBuiltins    \* names a grammar cannot define
 
 \* ------------------------------------------------------------------ states and results
-St(r) == [pos |-> r.pos, stk |-> r.stk, q |-> r.q]
-Res(k, st) == [k |-> k, pos |-> st.pos, stk |-> st.stk, q |-> st.q]
+\* h is the attempt history (only filled when C.hist): "in"/"out" events of every rule() call in
+\* evaluation order, including those of failed branches (used by ErrorReport, property C08)
+St(r) == [pos |-> r.pos, stk |-> r.stk, q |-> r.q, h |-> r.h]
+Res(k, st) == [k |-> k, pos |-> st.pos, stk |-> st.stk, q |-> st.q, h |-> st.h]
 Ok(st) == Res("ok", st)
 \* failure at entry state st0; in operational mode the stack is left as `stk`
-FailWith(C, st0, stk) == [k |-> "fail", pos |-> st0.pos, q |-> st0.q,
+FailWith(C, st0, stk) == [k |-> "fail", pos |-> st0.pos, q |-> st0.q, h |-> st0.h,
                           stk |-> IF C.op THEN stk ELSE st0.stk]
 Fail(st0) == Res("fail", st0)
+\* the same, keeping the history accumulated by the sub-result r
+FailH(st0, r) == [Fail(st0) EXCEPT !.h = r.h]
+OkH(st0, r) == [Ok(st0) EXCEPT !.h = r.h]
+WithH(st0, r) == [st0 EXCEPT !.h = r.h]
 Stops(r) == r.k \notin {"ok", "fail"}       \* abort / div / fuel propagate unchanged
 
 Advance(st, n) == [st EXCEPT !.pos = @ + n]
@@ -128,7 +134,7 @@ RECURSIVE Ev(_, _, _), EvRule(_, _, _), SkipWs(_, _), RepLoop(_, _, _, _, _), St
 \* zero or more calls of rule n (used by the implicit skip)
 Star(C, n, st) ==
   LET r == EvRule(C, n, st) IN
-  IF r.k = "fail" THEN Ok([st EXCEPT !.stk = r.stk])
+  IF r.k = "fail" THEN Ok([st EXCEPT !.stk = r.stk, !.h = r.h])
   ELSE IF r.k # "ok" THEN r
   ELSE IF r.pos = st.pos THEN Res(IF r.stk = st.stk THEN "div" ELSE "fuel", st)
   ELSE Star(C, n, St(r))
@@ -137,7 +143,7 @@ Star(C, n, st) ==
 RECURSIVE CommentLoop(_, _)
 CommentLoop(C, st) ==
   LET c == EvRule(C, "COMMENT", st) IN
-  IF c.k = "fail" THEN Ok(st)
+  IF c.k = "fail" THEN OkH(st, c)
   ELSE IF c.k # "ok" THEN c
   ELSE LET w == Star(C, "WHITESPACE", St(c)) IN
        IF w.k # "ok" THEN w
@@ -163,8 +169,8 @@ RepLoop(C, a, st, first, nz) ==
   IF s1.k # "ok" THEN s1
   ELSE LET r == Ev(C, a, St(s1)) IN
        IF r.k = "fail"
-       THEN (IF first THEN Ok([st EXCEPT !.stk = r.stk])   \* optional{e ..}: no roll-back of the stack
-                      ELSE Ok(st))                          \* sequence{skip ~ e}: everything rolled back
+       THEN (IF first THEN Ok([st EXCEPT !.stk = r.stk, !.h = r.h])   \* optional{e ..}: no roll-back of the stack
+                      ELSE OkH(st, r))                                \* sequence{skip ~ e}: everything rolled back
        ELSE IF r.k # "ok" THEN r
        ELSE IF r.pos = st.pos /\ r.stk = st.stk THEN Res("div", st)
        ELSE IF r.pos = st.pos /\ nz >= 6 THEN Res("fuel", st)
@@ -184,9 +190,16 @@ EvRule(C, n, st) ==
                  ELSE IF r.ty = "@" THEN "A" ELSE IF r.ty = "$" THEN "C"
                  ELSE IF r.ty = "!" THEN "N" ELSE C.mode
       emits   == r.ty # "_" /\ tokMode # "A" /\ ~C.la
+      \* a rule() call is made for every non-silent rule; it is reportable unless made in atomic mode
+      logs    == C.hist /\ r.ty # "_"
+      st1     == IF logs THEN [st EXCEPT !.h = Append(@, [e |-> "in", r |-> n, pos |-> st.pos, neg |-> C.neg,
+                                                         rep |-> tokMode # "A"])]
+                 ELSE st
       C1      == [C EXCEPT !.mode = inner, !.act = @ \cup {key}, !.fuel = @ - 1]
-      res     == Ev(C1, r.e, IF emits THEN [st EXCEPT !.q = <<>>] ELSE st)
-  IN IF res.k = "fail" THEN FailWith(C, st, res.stk)
+      res0    == Ev(C1, r.e, IF emits THEN [st1 EXCEPT !.q = <<>>] ELSE st1)
+      res     == IF logs /\ res0.k \in {"ok", "fail"}
+                 THEN [res0 EXCEPT !.h = Append(@, [e |-> "out", ok |-> res0.k = "ok"])] ELSE res0
+  IN IF res.k = "fail" THEN [FailWith(C, st, res.stk) EXCEPT !.h = res.h]
      ELSE IF res.k # "ok" THEN res
      ELSE IF emits
           THEN [res EXCEPT !.q = Append(st.q, [r |-> n, s |-> st.pos, e |-> res.pos, tag |-> "", c |-> res.q])]
@@ -196,11 +209,15 @@ EvBuiltin(C, n, st) ==
   LET inp == C.inp  p == st.pos IN
   CASE n = "ANY" -> IF p <= Len(inp) THEN Ok(Advance(st, 1)) ELSE Fail(st)
     [] n = "SOI" -> IF p = 1 THEN Ok(st) ELSE Fail(st)
-    [] n = "EOI" -> IF p = Len(inp) + 1
+    [] n = "EOI" -> LET hst == IF C.hist
+                               THEN [st EXCEPT !.h = @ \o << [e |-> "in", r |-> "EOI", pos |-> p, neg |-> C.neg, rep |-> C.mode # "A"],
+                                                             [e |-> "out", ok |-> p = Len(inp) + 1] >>]
+                               ELSE st
+                    IN IF p = Len(inp) + 1
                     THEN (IF C.mode # "A" /\ ~C.la
-                          THEN Ok([st EXCEPT !.q = Append(@, [r |-> "EOI", s |-> p, e |-> p, tag |-> "", c |-> <<>>])])
-                          ELSE Ok(st))
-                    ELSE Fail(st)
+                          THEN Ok([hst EXCEPT !.q = Append(@, [r |-> "EOI", s |-> p, e |-> p, tag |-> "", c |-> <<>>])])
+                          ELSE Ok(hst))
+                    ELSE Fail(hst)
     [] n = "NEWLINE" -> IF StartsWith(inp, p, <<10>>) THEN Ok(Advance(st, 1))
                         ELSE IF StartsWith(inp, p, <<13, 10>>) THEN Ok(Advance(st, 2))
                         ELSE IF StartsWith(inp, p, <<13>>) THEN Ok(Advance(st, 1))
@@ -210,12 +227,12 @@ EvBuiltin(C, n, st) ==
                      ELSE Fail(st)
     [] n = "POP"  -> IF st.stk = <<>> THEN Res("abort", st)
                      ELSE IF StartsWith(inp, p, Last(st.stk))
-                          THEN Ok([pos |-> p + Len(Last(st.stk)), stk |-> Front(st.stk), q |-> st.q])
+                          THEN Ok([st EXCEPT !.pos = p + Len(Last(st.stk)), !.stk = Front(st.stk)])
                           ELSE FailWith(C, st, Front(st.stk))
     [] n = "PEEK_ALL" -> LET m == MatchAll(inp, p, Rev(st.stk)) IN
                          IF m = 0 THEN Fail(st) ELSE Ok([st EXCEPT !.pos = m])
     [] n = "POP_ALL" -> LET m == PopAllOp(inp, p, st.stk) IN
-                        IF m[1] THEN Ok([pos |-> m[2], stk |-> <<>>, q |-> st.q])
+                        IF m[1] THEN Ok([st EXCEPT !.pos = m[2], !.stk = <<>>])
                         ELSE FailWith(C, st, m[3])
     [] n = "DROP" -> IF st.stk = <<>> THEN Fail(st) ELSE Ok([st EXCEPT !.stk = Front(@)])
     [] n \in DOMAIN AsciiBuiltins ->
@@ -243,28 +260,28 @@ Ev(C, e, st) ==
             ELSE LET m == MatchAll(inp, p, SubSeq(st.stk, lo + 1, hi)) IN
                  IF m = 0 THEN Fail(st) ELSE Ok([st EXCEPT !.pos = m])
     [] t = "and"   -> LET r == Ev([C EXCEPT !.la = TRUE], e.a, st) IN
-                      IF Stops(r) THEN r ELSE IF r.k = "ok" THEN Ok(st) ELSE Fail(st)
-    [] t = "not"   -> LET r == Ev([C EXCEPT !.la = TRUE], e.a, st) IN
-                      IF Stops(r) THEN r ELSE IF r.k = "ok" THEN Fail(st) ELSE Ok(st)
+                      IF Stops(r) THEN r ELSE IF r.k = "ok" THEN OkH(st, r) ELSE FailH(st, r)
+    [] t = "not"   -> LET r == Ev([C EXCEPT !.la = TRUE, !.neg = ~@], e.a, st) IN
+                      IF Stops(r) THEN r ELSE IF r.k = "ok" THEN FailH(st, r) ELSE OkH(st, r)
     [] t = "seq"   ->
          LET r1 == Ev(C, e.a, st) IN
          IF Stops(r1) THEN r1
-         ELSE IF r1.k = "fail" THEN Fail(st)
+         ELSE IF r1.k = "fail" THEN FailH(st, r1)
          ELSE LET r2 == SkipWs(C, St(r1)) IN
               IF r2.k # "ok" THEN r2
               ELSE LET r3 == Ev(C, e.b, St(r2)) IN
-                   IF r3.k = "fail" THEN Fail(st) ELSE r3
+                   IF r3.k = "fail" THEN FailH(st, r3) ELSE r3
     [] t = "alt"   ->
          LET r1 == Ev(C, e.a, st) IN
-         IF r1.k = "fail" THEN Ev(C, e.b, [st EXCEPT !.stk = r1.stk]) ELSE r1
+         IF r1.k = "fail" THEN Ev(C, e.b, [st EXCEPT !.stk = r1.stk, !.h = r1.h]) ELSE r1
     [] t = "opt"   ->
          LET r1 == Ev(C, e.a, st) IN
-         IF r1.k = "fail" THEN Ok([st EXCEPT !.stk = r1.stk]) ELSE r1
+         IF r1.k = "fail" THEN Ok([st EXCEPT !.stk = r1.stk, !.h = r1.h]) ELSE r1
     [] t = "rep"   -> RepLoop(C, e.a, st, TRUE, 0)
     [] t = "rep1"  ->
          IF C.extras
          THEN LET r1 == Ev(C, e.a, st) IN
-              IF r1.k = "fail" THEN Fail(st)
+              IF r1.k = "fail" THEN FailH(st, r1)
               ELSE IF r1.k # "ok" THEN r1
               ELSE RepLoop(C, e.a, St(r1), FALSE, 0)
          ELSE Ev(C, Seq2(e.a, [t |-> "rep", a |-> e.a]), st)
@@ -284,18 +301,22 @@ Ev(C, e, st) ==
     [] t = "skip"  -> Ok([st EXCEPT !.pos = SkipUntil(inp, p, e.ss)])
     [] t = "restore" ->
          LET r == Ev(C, e.a, st) IN
-         IF r.k = "fail" THEN Fail(st) ELSE r
+         IF r.k = "fail" THEN FailH(st, r) ELSE r
 
 \* ------------------------------------------------------------------ top level
 Ctx(G, inp, uni, extras, op, fuel) ==
   [G |-> G, inp |-> inp, uni |-> uni, extras |-> extras, op |-> op,
-   mode |-> "N", la |-> FALSE, act |-> {}, fuel |-> fuel]
+   mode |-> "N", la |-> FALSE, neg |-> FALSE, hist |-> FALSE, act |-> {}, fuel |-> fuel]
 
-St0 == [pos |-> 1, stk |-> <<>>, q |-> <<>>]
+St0 == [pos |-> 1, stk |-> <<>>, q |-> <<>>, h |-> <<>>]
 
 \* what Parser::parse(start, inp) denotes
 Parse(G, inp, uni, extras, op, fuel, start) ==
   Ev(Ctx(G, inp, uni, extras, op, fuel), [t |-> "id", n |-> start], St0)
+
+\* the same with the attempt history recorded in the result's h
+ParseH(G, inp, uni, extras, fuel, start) ==
+  Ev([Ctx(G, inp, uni, extras, FALSE, fuel) EXCEPT !.hist = TRUE], [t |-> "id", n |-> start], St0)
 
 RECURSIVE ByteTok(_, _)
 ByteTok(inp, tk) ==
